@@ -161,6 +161,13 @@ def oracle(c):
     if c.get("crash"):
         yield ("impl:crash", "the builder crashed or hung: %s" % c["crash"][:200], -1)
         return
+    if c["stream"].startswith("edge-"):
+        # workspaces outside the model: same oracle, keys of their own
+        pre = "edge:" + c["stream"][5:] + ":"
+        c2 = dict(c, stream="hist")
+        for k, why, i in oracle(c2):
+            yield (pre + k.split(":", 1)[1], why, i)
+        return
     rules = c["rules"]
     srcs = {s["name"] for s in c["src"]}
     prev = None          # (index, op) of the previous build if nothing happened since
@@ -203,6 +210,16 @@ def oracle(c):
                         yield ("impl:stale-output",
                                "output %s differs from the from-scratch build: %s vs %s"
                                % (f["name"], json.dumps(norm_entries(g))[:300], json.dumps(norm_entries(f))[:300]), i)
+        # (1b) what a file set records about a listed output file is that file's stat
+        if o["ok"]:
+            actual = {f["name"]: (f["size"], f["mtime"]) for f in o["outs"]}
+            for f in o["outs"]:
+                for e in f.get("entries") or []:
+                    if e["t"] == "o" and e["n"] in actual and actual[e["n"]] != (e["s"], e["m"]):
+                        yield ("impl:stale-output-entry",
+                               "%s records (size, mtime) %s for the output %s, which now has %s: no "
+                               "from-scratch build leaves this" % (f["name"], (e["s"], e["m"]), e["n"],
+                                                                  actual[e["n"]]), i)
         # (2) nothing changed => nothing executes; a failed rule is executed again
         if prev is not None and prev[1]["targets"] == op["targets"]:
             po = prev[1]["obs"]
@@ -357,7 +374,7 @@ def run(ck):
     model_ok = all(built.get(x) for x in MODEL)
     if cases and model_ok:
         from concurrent.futures import ThreadPoolExecutor
-        ok_cases = [c for c in cases if not c.get("crash")]
+        ok_cases = [c for c in cases if not c.get("crash") and not c["stream"].startswith("edge-")]
         shard = max(10, (len(ok_cases) + 11) // 12)
 
         def evaluate(s):
